@@ -31,7 +31,9 @@ func H_C14_cache_index(t *verifrt.T) {
 	initEncoderOnce.Do(func() {}) // mark initialised: the window below replaces AnalyzeTypeAddr's result
 	shift := uintptr([]int{0, 5, 6}[t.Choice("shift", 3)])
 	n := t.Choice("cache-len", 4) + 1
-	base := uintptr(t.U64("base"))
+	// the window is placed relative to the first requested type (so that a replay vector
+	// keeps its meaning when type addresses differ between the engine and a native run)
+	base := vcTypeptr(vcA{}) - uintptr(t.U64("base-below-A"))
 	rng := uintptr(t.U64("range"))
 	t.Assume(rng>>shift+1 == uintptr(n))
 	t.Assume(base <= base+rng) // no wrap
